@@ -268,14 +268,10 @@ K("N1.get_size", ["C11", "C12"], CB, "check_get_size", "CellBuffer::get_size",
 K("N1.get_size_default", ["C11", "C12"], CB, "check_get_size_default_scale", "CellBuffer::get_size",
   "at scale 8: exactly 8*(col+2) x 16*(row+2) for all cells < 2^17; empty => 16 x 32",
   assumes=["CellBuffer::bounds replaced by an opaque result"])
-K("C17.blank_filter", ["C17", "C04"], CB, "check_blank_filter_all_chars", "From<StringBuffer> for CellBuffer (cell filter predicate)",
+K("C17.blank_filter", ["C17", "C04", "C15"], CB, "check_blank_filter_all_chars", "From<StringBuffer> for CellBuffer (cell filter predicate)",
   "for every char: space, tab, CR, LF, NUL never become cells; every visible ASCII character does",
   assumes=["the predicate `ch != NUL && !ch.is_whitespace()` is the one From<StringBuffer> applies (checked against the real function by the bounded stand-in T7)"])
 
-K("C18.fragments_to_node_111", ["C18", "C02"], CB, "check_fragments_to_node_111", "CellBuffer::fragments_to_node",
-  "root = svg[xmlns, width=w, height=h, class=svgbob] (exactly 4 attributes); children = [style]? [defs]? [rect.backdrop 0,0,w,h]? ++ fragment nodes, each present iff its switch; all 8 combinations, all f32 w,h",
-  kmod="k18", timeout=600,
-  assumes=["CellBuffer::style, get_defs, FragmentTree::fragments_to_node replaced by opaque marker nodes"])
 
 # ------------------------------------------------------------------------------------------------
 # Verus: unbounded fix-points (M1 - M3)
@@ -408,3 +404,9 @@ B("C16.tag_grammar", ["C16", "C08"], UTIL, "bounded_tag_grammar", "parser::parse
 B("T6.string_and_cell_buffer", ["C04", "C17"], CB, "bounded_string_and_cell_buffer", "From<&str> for StringBuffer / From<StringBuffer> for CellBuffer",
   "cells = the non-blank characters at the column where their display columns start (wide = 2 columns); LF/CRLF, trailing blanks and blank lines add nothing",
   "first row: all strings of <= 4 (thorough 5) tokens over {a, e-acute, wide CJK, space, -, TAB} x 3 second rows x {LF, CRLF} x 4 trailing-blank variants")
+
+K("C15.celltext_fragment_dispatch", ["C15", "C03", "C04"], FRAG, "check_fragment_celltext_dispatch",
+  "Fragment::scale / absolute_position / merge / is_contacting / is_broken on a CellText fragment",
+  "a text fragment never becomes or joins geometry: scale gives a Text with the same content anchored at q*s; absolute_position moves the cell; "
+  "merge with a line, circle, arc or rect is None in both orders; it contacts no geometric fragment",
+  kind="bounded", bound="content fixed to \"é-\" (drawing character inside the text); cells, scale and the geometric fragments symbolic", timeout=300)
